@@ -205,6 +205,15 @@ def enumerate_cases(tier):
                     for first in (0, 1):
                         yield dict(BASE, start_name=sname, start=start, calls=[a, b], mode="cd", max_preempt=3, firsts=[first],
                                    family="references-without-object")
+    # 'cid in another letter case': tag_object is handed the cid of a stored object in UPPER case (a checksum copied from system
+    # metadata).  On the pinned tree that is simply another identifier with a list of its own; whatever an implementation makes of
+    # it, the call must stay atomic next to the calls that use the object's own spelling
+    up = {"op": "tag", "pid": "u", "cid": {"of": X, "upper": True}}
+    for other in ({"op": "delete", "pid": "p"}, {"op": "tag", "pid": "r", "cid": {"of": X}}, {"op": "store", "pid": "r", "c": X},
+                  {"op": "dii", "c": X, "cks": "wrong"}, {"op": "tag", "pid": "v", "cid": {"of": X, "upper": True}}):
+        for sname in ("p=X", "X-unreferenced"):
+            yield dict(BASE, start_name=sname, start=STARTS[sname], calls=[up, other], mode="enum", max_preempt=1,
+                       family="cid-in-another-letter-case")
     # 'sequenced': one caller issues TWO calls one after the other while another caller's call overlaps them; the sequential
     # orders that explain the execution keep the caller's program order.  The shared object stays referenced by a third pid
     # throughout and no pid is stored and deleted by different callers (the windows of the known findings are not in these programs)
